@@ -63,6 +63,40 @@ def _tower_unit(trees):
     return acc
 
 
+def _chain_unit(unit):
+    """n simple comparisons joined by every pattern of and/or starting with `first`: unparenthesised text, expected tree from the
+    independent precedence-climbing parser"""
+    from itertools import product as _product
+    n, first = unit
+    acc = Acc()
+    lx = ODataLexer()
+    cmps = ["eq", "ne", "gt", "le", "lt", "ge"]
+    for pattern in _product(("and", "or"), repeat=n - 2):
+        conns = (first,) + pattern
+        for with_not in (False, True):
+            parts = []
+            for i in range(n):
+                c = "f%d %s %s" % (i, cmps[i % 6], ("'v%d'" % i) if i % 2 else str(i))
+                if with_not and i % 2 == 1:
+                    c = "not " + c
+                parts.append(c)
+            text = parts[0]
+            for cn, pt in zip(conns, parts[1:]):
+                text += " %s %s" % (cn, pt)
+            toks = [(k.type, decode(k.value) if not isinstance(k.value, str) else None) for k in lx.tokenize(text)]
+            ref = refparse.ref_parse(toks)
+            got = parse_text(text)
+            acc.count("executions")
+            acc.count("transitions")
+            acc.count("states")
+            acc.count("nontrivial")
+            if got != ref:
+                acc.violation("chain:%d:%s" % (n, "-".join(conns[:4])), {"layer": "negative", "text": text, "expected": ref, "observed": got})
+            else:
+                acc.outcome(("chain-ok", n))
+    return acc
+
+
 def _opsig(t):
     """operator skeleton of a tree (dedup class for violations)"""
     ops = [s[1][0] for s in T.subterms(t) if s[0] in ("BinOp", "Compare", "BoolOp", "UnaryOp")]
@@ -133,6 +167,12 @@ def run(ctx):
     tw = list(T.op_towers((5, 8) if ctx.quick else (5, 8, 12)))
     ctx.pmap(_tower_unit, [tw[i::32] for i in range(32)])
     ctx.layer("towers", trees=len(tw), depths=[5, 8] if ctx.quick else [5, 8, 12], exhaustive=True)
+
+    # ---- flat connective chains: n simple comparisons joined by every pattern of and/or (optionally with not) --------------
+    nmax = 6 if ctx.quick else 9
+    units = [(n, first) for n in range(2, nmax + 1) for first in ("and", "or")]
+    ctx.pmap(_chain_unit, units)
+    ctx.layer("connective-chains", max_comparisons=nmax, patterns="all and/or patterns x not on every second term", exhaustive=True)
 
     # ---- layer 3: negative --------------------------------------------
     kneg = 3 if ctx.quick else 4
